@@ -525,20 +525,23 @@ def oracle(c, o):
             mine = [locks[cn[0]] for cn in r["conns"] if (cn[1], cn[2]) == (d, vv) and cn[0] in locks]
             total = sum(l[3] for l in mine)
             one_to_one = r["vals"][vv][1] == r["vals"][vv][0] * P18
+            # exchange rate != 1 is outside the claimed scope (it arises from slashing): SDK share rounding then moves the
+            # token value of a delegation by a relative 1e-18 per staking operation on the validator - a loose tolerance only
+            slack = 0 if one_to_one else 2 + sum(1 for x in r["acc"].values() if x["exists"]) + a["tokens"] // 10 ** 12
             # the accumulator the refresh reads = the locks delegated through the account
             if a["stk"] != total:
                 bad("accumulator", i, "account (%d,%d): synthetic-denom accumulation %d != sum of delegated locks %d" % (d, vv, a["stk"], total))
             ideal = Fraction(r["mult"][d] * total * (P18 - rf), P18 * P18)
             per_lock = sum(lock_value(r["mult"][d], rf, l[3]) for l in mine)
             if r["code"] == 0 and k == "epoch":
-                tol = 0 if one_to_one else 1
+                tol = slack
                 if a["expected"] >= 0 and abs(a["tokens"] - a["expected"]) > tol:
                     bad("refresh_exact", i, "account (%d,%d): delegation %d != expected %d right after the refresh" % (d, vv, a["tokens"], a["expected"]))
                 if abs(a["tokens"] - ideal) > 1 + tol:
                     bad("refresh_exact", i, "account (%d,%d): delegation %d vs ideal risk-adjusted value %s of its %d locks" % (d, vv, a["tokens"], float(ideal), len(mine)))
             else:
                 drift = abs(a["tokens"] - per_lock)
-                allow = budget.get((d, vv), 0) + (0 if one_to_one else 1 + len(mine))
+                allow = budget.get((d, vv), 0) + slack * (1 + len(mine))
                 if drift > allow:
                     bad("drift", i, "account (%d,%d): |delegation %d - sum of per-lock values %d| = %d > %d (locks at last refresh + 2 per top-up)"
                         % (d, vv, a["tokens"], per_lock, drift, allow))
